@@ -218,6 +218,15 @@ func init() {
 			for _, cmd := range []string{"vi-forward-word", "vi-end-word", "vi-end-of-line"} {
 				jobs = append(jobs, withHist(stepJob("vi-command", cmd, hn, "", "y", true, true)))
 			}
+			// vi history search through the minibuffer ('?', '/'), back to command mode
+			for _, key := range []string{"?", "/"} {
+				for _, cfg := range [][2]int{{1, 1}, {2, 2}, {1, 2}, {2, 1}} {
+					j := mkJob(".ZZ_C06_ViSearch", shellSetup, "key", key, "k", itoa(cfg[0]), "el", itoa(cfg[1]))
+					j.Stubs = paintStubs
+					j.Reach = []string{"search-done|returned"}
+					jobs = append(jobs, j)
+				}
+			}
 			return jobs
 		},
 		Assumptions: stepAssumptions,
